@@ -423,6 +423,7 @@ class TaskResult(object):
         self.time = 0.0
         self.sources = {}
         self.controls = {}
+        self.bounded = None
 
     def add(self, name, status, t=0.0, backend="z3", model=None, witness=None, note=None, control=False):
         tab = self.controls if control else self.obligs
@@ -450,6 +451,7 @@ def run_contract(eng, c, clause_filter=None):
     """Explore the target under contract c; returns TaskResult."""
     label = "%s/%s" % (c.prop, c.short)
     res = TaskResult(label)
+    res.bounded = c.bounded
     t0 = time.time()
     target = c.target_obj
 
